@@ -15,7 +15,7 @@ TABLE = {
  },
  "C17": {
   "technique": "model-based property testing of handle sequences in three differently-configured crates (configuration differential) + multi-thread stress with an exact-count oracle",
-  "text": "Random and enumerated sequences of clone / to_dyn / borrow / borrow_mut / drop over all six Reference variants are interpreted against a one-shared-cell model with a drop counter; the same interpreter source is compiled into the harness, into a downstream crate built with features named alloc/std and into the same crate built without them, and all three must agree with the model (to_dyn! must not panic for the variants it lists); four library crates ({#![no_std], std} x {with, without cfg(feature = alloc/std)}) calling to_dyn! on Ptr / RcRefCell / PtrRwLock References must compile against the std-built rrtk whenever their twin without the calls does. 2..8 threads perform read-yield-write increments under borrow_mut() of per-thread References over one Arc/static lock and the final count must be exact; the static_* macros are checked for aliasing per call site.",
+  "text": "Random and enumerated sequences of clone / to_dyn / borrow / borrow_mut / drop over all six Reference variants are interpreted against a one-shared-cell model with a drop counter; the same interpreter source is compiled into the harness, into a downstream crate built with features named alloc/std, into the same crate built without them, and into a second feature-less crate built against rrtk with `alloc` only and against rrtk without any feature (the three cfg-selected definitions of to_dyn! and the cfg-gated halves of Reference), and all must agree with the model (to_dyn! must not panic for the variants it lists); four library crates ({#![no_std], std} x {with, without cfg(feature = alloc/std)}) calling to_dyn! on Ptr / RcRefCell / PtrRwLock References must compile against the std-built rrtk whenever their twin without the calls does. 2..8 threads perform read-yield-write increments under borrow_mut() of per-thread References over one Arc/static lock and the final count must be exact; the static_* macros are checked for aliasing per call site.",
   "note": "The OS owns the schedule, so the stress part is a probabilistic lost-update detector; std's locks are trusted. Raw-pointer variants point at live heap objects owned by the harness.",
  },
  "C15": {
